@@ -315,7 +315,7 @@ func wtRealPair(c tk.Comp) (*tk.Pair, error) {
 	var derr error
 	for i := 0; i < 50; i++ {
 		d := &webtransgo.Dialer{TLSClientConfig: &tls.Config{InsecureSkipVerify: true}}
-		ctx, cancel := context.WithTimeout(context.Background(), 2*time.Second)
+		ctx, cancel := context.WithTimeout(context.Background(), 15*time.Second)
 		_, cs, derr = d.Dial(ctx, "https://"+addr+"/wt", nil)
 		cancel()
 		if derr == nil {
@@ -331,7 +331,7 @@ func wtRealPair(c tk.Comp) (*tk.Pair, error) {
 	var ss *webtransgo.Session
 	select {
 	case ss = <-sess:
-	case <-time.After(5 * time.Second):
+	case <-time.After(20 * time.Second):
 		close(done)
 		sv.Close()
 		return nil, fmt.Errorf("server session not established")
